@@ -194,36 +194,50 @@ theorem prString_raw {s : String} (hkw : Val.isKwStr s = false) (hraw : isRawStr
     have hc : ¬ c = kwMarker := by simpa using hkw
     simp only [hc, if_false, if_true, if_pos hr]
 
-theorem el_str {s : String} (hkw : Val.isKwStr s = false) (hnul : Char.ofNat 0 ∉ s.toList) :
-    El (prString true s) [strTok s] := by
+/-- the printed form of a non-keyword string without NUL, then anything that does not start with
+    `¬`: one token, whatever follows -/
+theorem scan_str {s : String} (hkw : Val.isKwStr s = false) (hnul : Char.ofNat 0 ∉ s.toList)
+    {tail : List Rune} (ht : ∀ d S, tail = d :: S → ¬ (d.ch : Int) = 172) (p : PState) (hp : p.errs = 0) :
+    HeadOk (prString true s) ∧ (prString true s).head? ≠ some (Char.ofNat 0xFEFF) ∧
+    ∃ q, (∀ F : Nat, scan (F + 1) (next (runesOf (prString true s) ++ tail) p).2.1
+        (next (runesOf (prString true s) ++ tail) p).1 (next (runesOf (prString true s) ++ tail) p).2.2 =
+          (some (strTok s), next tail q)) ∧ q.errs = 0 := by
   have e : strTok s = (if isRawStr s then .rawString else .string, (prString true s).map Char.toNat) := by
     simp only [strTok, hkw, Bool.false_eq_true, if_false]
   rw [e]
   by_cases hraw : isRawStr s = true
   · rw [if_pos hraw, prString_raw hkw hraw]
-    refine El.single_next ⟨'¬', _, rfl, by decide⟩ (fun d S p hd hp => ?_)
+    refine ⟨⟨'¬', _, rfl, by decide⟩, by simp only [List.cons_append, List.head?_cons]; decide, ?_⟩
     obtain ⟨p1, hp1, he1⟩ := ScanString.next_good 172 ('¬').utf8Size
-      (runesOf (rawBody s.toList ++ ['¬']) ++ d :: S) p (by decide) (by decide)
-    have hp1' : next (runesOf ('¬' :: rawBody s.toList ++ ['¬']) ++ d :: S) p =
-        ((172 : Int), runesOf (rawBody s.toList ++ ['¬']) ++ d :: S, p1) := hp1
+      (runesOf (rawBody s.toList ++ ['¬']) ++ tail) p (by decide) (by decide)
+    have hp1' : next (runesOf ('¬' :: rawBody s.toList ++ ['¬']) ++ tail) p =
+        ((172 : Int), runesOf (rawBody s.toList ++ ['¬']) ++ tail, p1) := hp1
     rw [hp1']
-    obtain ⟨q, hq, he⟩ := scan_raw (tail := d :: S)
-      (fun d' S' h => by
-        injection h with h1 _; subst h1
-        obtain ⟨_, h | h | h | h⟩ := hd <;> rw [h] <;> decide) s.toList hnul p1
+    obtain ⟨q, hq, he⟩ := scan_raw ht s.toList hnul p1
     exact ⟨q, hq, by rw [he, he1, hp]⟩
   · rw [if_neg hraw]
     have hraw' : ¬ (['{', '"'].isPrefixOf s.toList = true ∧ s.toList.getLast? = some '}') :=
       fun h => hraw ((isRawStr_iff s).mpr h)
     rw [ScanString.prString_quoted s hkw hraw']
-    refine El.single_next ⟨'"', _, rfl, by decide⟩ (fun d S p hd hp => ?_)
+    refine ⟨⟨'"', _, rfl, by decide⟩, by simp only [List.cons_append, List.head?_cons]; decide, ?_⟩
     obtain ⟨p1, hp1, he1⟩ := ScanString.next_good 34 ('"').utf8Size
-      (runesOf (RoundTrip.esc s.toList ++ ['"']) ++ d :: S) p (by decide) (by decide)
-    have hp1' : next (runesOf ('"' :: RoundTrip.esc s.toList ++ ['"']) ++ d :: S) p =
-        ((34 : Int), runesOf (RoundTrip.esc s.toList ++ ['"']) ++ d :: S, p1) := hp1
+      (runesOf (RoundTrip.esc s.toList ++ ['"']) ++ tail) p (by decide) (by decide)
+    have hp1' : next (runesOf ('"' :: RoundTrip.esc s.toList ++ ['"']) ++ tail) p =
+        ((34 : Int), runesOf (RoundTrip.esc s.toList ++ ['"']) ++ tail, p1) := hp1
     rw [hp1']
-    obtain ⟨q, hq, he⟩ := scan_quoted s.toList hnul (d :: S) p1 (by rw [he1, hp])
+    obtain ⟨q, hq, he⟩ := scan_quoted s.toList hnul tail p1 (by rw [he1, hp])
     exact ⟨q, hq, he⟩
+
+theorem delim_not_raw {d : Rune} (hd : IsDelim d) (S : List Rune) :
+    ∀ d' S', d :: S = d' :: S' → ¬ (d'.ch : Int) = 172 := by
+  intro d' S' h
+  injection h with h1 _; subst h1
+  obtain ⟨_, h | h | h | h⟩ := hd <;> rw [h] <;> decide
+
+theorem el_str {s : String} (hkw : Val.isKwStr s = false) (hnul : Char.ofNat 0 ∉ s.toList) :
+    El (prString true s) [strTok s] := by
+  have h0 := (scan_str hkw hnul (tail := []) (fun _ _ h => by cases h) {} rfl).1
+  exact El.single_next h0 (fun d S p hd hp => (scan_str hkw hnul (delim_not_raw hd S) p hp).2.2)
 
 /-- every readable string (keyword or not), printed readably and followed by a delimiter -/
 theorem el_readableStr {s : String} (h : readableStr s = true) : El (prString true s) [strTok s] := by
@@ -233,5 +247,207 @@ theorem el_readableStr {s : String} (h : readableStr s = true) : El (prString tr
   · rw [if_neg hkw] at h
     have hkw' : Val.isKwStr s = false := by simpa using hkw
     exact el_str hkw' (by simpa using h)
+
+/-! ### collections -/
+
+theorem headOk_seq (items : List (List Char × List KT)) (hall : ∀ it ∈ items, El it.1 it.2) (cl : Char)
+    (hcl : IsCloserCh cl) : HeadOk (seqText items ++ [cl]) := by
+  cases items with
+  | nil => exact ⟨cl, [], rfl, by rcases hcl with h | h | h <;> subst h <;> decide⟩
+  | cons it rest =>
+    obtain ⟨⟨c, cs, hc, hc0⟩, _, _⟩ := hall it (List.mem_cons_self ..)
+    cases rest with
+    | nil => exact ⟨c, cs ++ [cl], by simp [seqText, intercalate, hc], hc0⟩
+    | cons it2 r2 => exact ⟨c, _, by simp only [seqText, List.map_cons, intercalate, hc, List.cons_append]; rfl, hc0⟩
+
+theorem delim_stopTail {d : Rune} (hd : IsDelim d) (S : List Rune) : StopTail (d :: S) :=
+  Or.inr ⟨d, S, rfl, hd⟩
+
+/-- an opening bracket, the elements separated by spaces, the closing bracket — then a delimiter
+    or the end of the input -/
+theorem toks_bracketed (opc : Char) (hop : IsBracket opc.toNat) (items : List (List Char × List KT))
+    (hall : ∀ it ∈ items, El it.1 it.2) (cl : Char) (hcl : IsCloserCh cl) {tail : List Rune}
+    (ht : StopTail tail) (p : PState) (hp : p.errs = 0) :
+    ∃ q, q.errs = 0 ∧ Toks (next (runesOf (opc :: seqText items ++ [cl]) ++ tail) p)
+      ((.char opc.toNat, [opc.toNat]) :: items.flatMap (·.2) ++ [(.char cl.toNat, [cl.toNat])]) (next tail q) := by
+  have h0 : opc.toNat ≠ 0 := by rcases hop with h | h | h | h | h | h <;> omega
+  have h10 : opc.toNat ≠ 10 := by rcases hop with h | h | h | h | h | h <;> omega
+  obtain ⟨p1, hp1, he1⟩ := ScanString.next_good opc.toNat opc.utf8Size
+    (runesOf (seqText items ++ [cl]) ++ tail) p h0 h10
+  have hp1' : next (runesOf (opc :: seqText items ++ [cl]) ++ tail) p =
+      ((opc.toNat : Int), runesOf (seqText items ++ [cl]) ++ tail, p1) := hp1
+  rw [hp1']
+  have hp10 : p1.errs = 0 := by rw [he1, hp]
+  obtain ⟨q, hq, hT⟩ := seq_toks cl hcl ht items hall p1 hp10
+  refine ⟨q, hq, ?_⟩
+  rw [List.cons_append]
+  refine Toks.cons (fun F => scan_bracket _ hop F _ p1) ?_ ?_ hT
+  · rw [next_headOk (headOk_seq items hall cl hcl), hp10]
+  · show pot (next (runesOf (seqText items ++ [cl]) ++ tail) p1) < _
+    rw [pot_at]; have := pot_next_le (runesOf (seqText items ++ [cl]) ++ tail) p1; omega
+
+theorem el_bracketed (opc : Char) (hop : IsBracket opc.toNat) (items : List (List Char × List KT))
+    (hall : ∀ it ∈ items, El it.1 it.2) (cl : Char) (hcl : IsCloserCh cl) :
+    El (opc :: seqText items ++ [cl])
+      ((.char opc.toNat, [opc.toNat]) :: items.flatMap (·.2) ++ [(.char cl.toNat, [cl.toNat])]) := by
+  have h0 : opc.toNat ≠ 0 := by rcases hop with h | h | h | h | h | h <;> omega
+  refine ⟨⟨opc, _, rfl, h0⟩, by simp, fun d S p hd hp => ?_⟩
+  obtain ⟨q, hq, hT⟩ := toks_bracketed opc hop items hall cl hcl (delim_stopTail hd S) p hp
+  obtain ⟨q', hq', he'⟩ := next_delim hd S q
+  rw [hq'] at hT
+  exact ⟨q', by rw [he', hq], hT⟩
+
+/-- `#{`, the elements separated by spaces, `}` — then a delimiter or the end of the input -/
+theorem toks_set_bracketed (items : List (List Char × List KT)) (hall : ∀ it ∈ items, El it.1 it.2)
+    {tail : List Rune} (ht : StopTail tail) (p : PState) (hp : p.errs = 0) :
+    ∃ q, q.errs = 0 ∧ Toks (next (runesOf ('#' :: '{' :: seqText items ++ ['}']) ++ tail) p)
+      ((.ident, [35, 123]) :: items.flatMap (·.2) ++ [(.char 125, [125])]) (next tail q) := by
+  have hcl : IsCloserCh '}' := Or.inr (Or.inr rfl)
+  obtain ⟨p1, hp1, he1⟩ := ScanString.next_good 35 ('#').utf8Size
+    (runeOf '{' :: (runesOf (seqText items ++ ['}']) ++ tail)) p (by decide) (by decide)
+  have hp1' : next (runesOf ('#' :: '{' :: seqText items ++ ['}']) ++ tail) p =
+      ((35 : Int), runeOf '{' :: (runesOf (seqText items ++ ['}']) ++ tail), p1) := hp1
+  rw [hp1']
+  have hp10 : p1.errs = 0 := by rw [he1, hp]
+  obtain ⟨p2, hp2, he2⟩ := scan_hashbrace ('{').utf8Size (runesOf (seqText items ++ ['}']) ++ tail) p1
+  have hp20 : p2.errs = 0 := by rw [he2, hp10]
+  obtain ⟨q, hq, hT⟩ := seq_toks '}' hcl ht items hall p2 hp20
+  refine ⟨q, hq, ?_⟩
+  rw [List.cons_append]
+  refine Toks.cons (fun F => hp2 F) ?_ ?_ hT
+  · rw [next_headOk (headOk_seq items hall '}' hcl), hp20]
+  · show pot (next (runesOf (seqText items ++ ['}']) ++ tail) p2) < _
+    have := pot_at 35 (runeOf '{' :: (runesOf (seqText items ++ ['}']) ++ tail)) p1
+    rw [show ((35 : Nat) : Int) = 35 from rfl] at this
+    rw [this]
+    have := pot_next_le (runesOf (seqText items ++ ['}']) ++ tail) p2
+    simp only [List.length_cons]
+    omega
+
+theorem el_set_bracketed (items : List (List Char × List KT)) (hall : ∀ it ∈ items, El it.1 it.2) :
+    El ('#' :: '{' :: seqText items ++ ['}'])
+      ((.ident, [35, 123]) :: items.flatMap (·.2) ++ [(.char 125, [125])]) := by
+  refine ⟨⟨'#', _, rfl, by decide⟩, by simp, fun d S p hd hp => ?_⟩
+  obtain ⟨q, hq, hT⟩ := toks_set_bracketed items hall (delim_stopTail hd S) p hp
+  obtain ⟨q', hq', he'⟩ := next_delim hd S q
+  rw [hq'] at hT
+  exact ⟨q', by rw [he', hq], hT⟩
+
+/-! ### every readable value -/
+
+/-- the elements of a printed list -/
+def listItems (xs : List Val) : List (List Char × List KT) := xs.map (fun x => (prStr true x, toksOf x))
+
+/-- the elements of a printed hash-map: key, value, key, value, … -/
+def mapItems (kvs : List (String × Val)) : List (List Char × List KT) :=
+  kvs.flatMap (fun kv => [(prString true kv.1, [strTok kv.1]), (prStr true kv.2, toksOf kv.2)])
+
+/-- the elements of a printed set -/
+def setItems (ks : List String) : List (List Char × List KT) := ks.map (fun k => (prString true k, [strTok k]))
+
+theorem prList_eq (xs : List Val) : prList true xs = (listItems xs).map (·.1) := by
+  induction xs with
+  | nil => rfl
+  | cons x xs ih => show prStr true x :: prList true xs = _; rw [ih]; rfl
+
+theorem toksList_eq (xs : List Val) : toksList xs = (listItems xs).flatMap (·.2) := by
+  induction xs with
+  | nil => rfl
+  | cons x xs ih => show toksOf x ++ toksList xs = _; rw [ih]; rfl
+
+theorem prMap_eq (kvs : List (String × Val)) : prMap true kvs = (mapItems kvs).map (·.1) := by
+  induction kvs with
+  | nil => rfl
+  | cons kv kvs ih =>
+    obtain ⟨k, v⟩ := kv
+    show prString true k :: prStr true v :: prMap true kvs = _
+    rw [ih]; rfl
+
+theorem toksMap_eq (kvs : List (String × Val)) : toksMap kvs = (mapItems kvs).flatMap (·.2) := by
+  induction kvs with
+  | nil => rfl
+  | cons kv kvs ih =>
+    obtain ⟨k, v⟩ := kv
+    show strTok k :: (toksOf v ++ toksMap kvs) = _
+    rw [ih]; simp [mapItems]
+
+theorem el_setItems (ks : List String) (h : ks.all readableStr = true) : ∀ it ∈ setItems ks, El it.1 it.2 := by
+  intro it hit
+  simp only [setItems, List.mem_map] at hit
+  obtain ⟨k, hk, rfl⟩ := hit
+  exact el_readableStr (List.all_eq_true.mp h k hk)
+
+theorem setItems_toks (ks : List String) : ks.map strTok = (setItems ks).flatMap (·.2) := by
+  induction ks with
+  | nil => rfl
+  | cons k ks ih =>
+    show strTok k :: ks.map strTok = [strTok k] ++ (setItems ks).flatMap (·.2)
+    rw [ih]; rfl
+
+mutual
+theorem el_val : (v : Val) → readableData v = true → El (prStr true v) (toksOf v)
+  | .nil, _ => el_nil
+  | .bool true, _ => el_true
+  | .bool false, _ => el_false
+  | .int i, _ => el_int i
+  | .str s, h => el_readableStr h
+  | .sym s _, h => el_sym h
+  | .list xs _, h => by
+    have := el_bracketed '(' (Or.inl rfl) (listItems xs) (el_list xs h) ')' (Or.inl rfl)
+    show El ('(' :: intercalate [' '] (prList true xs) ++ [')'])
+      ((.char 40, [40]) :: toksList xs ++ [(.char 41, [41])])
+    rw [prList_eq, toksList_eq]
+    exact this
+  | .vec xs _, h => by
+    have := el_bracketed '[' (Or.inr (Or.inr (Or.inl rfl))) (listItems xs) (el_list xs h) ']' (Or.inr (Or.inl rfl))
+    show El ('[' :: intercalate [' '] (prList true xs) ++ [']'])
+      ((.char 91, [91]) :: toksList xs ++ [(.char 93, [93])])
+    rw [prList_eq, toksList_eq]
+    exact this
+  | .map kvs, h => by
+    have := el_bracketed '{' (Or.inr (Or.inr (Or.inr (Or.inr (Or.inl rfl))))) (mapItems kvs) (el_map kvs h) '}'
+      (Or.inr (Or.inr rfl))
+    show El ('{' :: intercalate [' '] (prMap true kvs) ++ ['}'])
+      ((.char 123, [123]) :: toksMap kvs ++ [(.char 125, [125])])
+    rw [prMap_eq, toksMap_eq]
+    exact this
+  | .set ks, h => by
+    have := el_set_bracketed (setItems ks) (el_setItems ks h)
+    show El ('#' :: '{' :: intercalate [' '] (ks.map (prString true)) ++ ['}'])
+      ((.ident, [35, 123]) :: ks.map strTok ++ [(.char 125, [125])])
+    have e1 : ks.map (prString true) = (setItems ks).map (·.1) := by simp [setItems]
+    have e2 : ks.map strTok = (setItems ks).flatMap (·.2) := setItems_toks ks
+    rw [e1, e2]
+    exact this
+  | .fn .., h => by cases h
+  | .builtin _, h => by cases h
+  | .atom _, h => by cases h
+  | .future _, h => by cases h
+  | .goerr _, h => by cases h
+  | .opaque _, h => by cases h
+theorem el_list : (xs : List Val) → readableList xs = true → ∀ it ∈ listItems xs, El it.1 it.2
+  | [], _ => by intro it hit; cases hit
+  | x :: xs, h => by
+    have h' : readableData x = true ∧ readableList xs = true := by
+      have : (readableData x && readableList xs) = true := h
+      simpa using this
+    intro it hit
+    rcases List.mem_cons.mp hit with rfl | hit
+    · exact el_val x h'.1
+    · exact el_list xs h'.2 it hit
+theorem el_map : (kvs : List (String × Val)) → readableMap kvs = true → ∀ it ∈ mapItems kvs, El it.1 it.2
+  | [], _ => by intro it hit; cases hit
+  | (k, v) :: kvs, h => by
+    have h' : (readableStr k = true ∧ readableData v = true) ∧ readableMap kvs = true := by
+      have : (readableStr k && readableData v && readableMap kvs) = true := h
+      simpa using this
+    intro it hit
+    have hit' : it = (prString true k, [strTok k]) ∨ it = (prStr true v, toksOf v) ∨ it ∈ mapItems kvs := by
+      simpa [mapItems] using hit
+    rcases hit' with rfl | rfl | hit'
+    · exact el_readableStr h'.1.1
+    · exact el_val v h'.1.2
+    · exact el_map kvs h'.2 it hit'
+end
 
 end LispModel.Proofs.PrintRead
